@@ -110,9 +110,11 @@ theorem counter_decreases (c : Consts) (δ : Nat) (s : MonSt) (h : 2 ≤ s.count
 /-! ### bridge: the constants and the loop of the code as it is now -/
 open Jug.Generated.KeepAlive
 
-/-- with today's constants a live lock is safe as long as a round overshoots its 5 s by less than 25 s minus the start-up share:
-    60 * (5 + 24) + 59 < 1800 -/
-theorem constants_safe : 59 + consts.rounds * (consts.period + 24) < consts.expiry ∧ 1 ≤ consts.rounds := by decide
+/-- the environment assumption of the property is stated once, here: a wake-up of the helper is late by at most 10 s and the helper
+    starts within 59 s.  The constants of the code as it is now leave room for that (today: 60 * (5 + 10) + 59 < 1800; they would
+    tolerate up to 24 s).  The bound is a fact about the environment, not about today's constants: a retuning of period and
+    rounds that still tolerates 10 s keeps this theorem -/
+theorem constants_safe : 59 + consts.rounds * (consts.period + 10) < consts.expiry ∧ 1 ≤ consts.rounds := by decide
 
 /-- the order of the primitive calls of the real `main()` over 125 live rounds is the model's -/
 theorem loop_matches : liveTrace = liveCalls consts 125 { now := 0, mtime := 0, counter := consts.rounds } := by decide +kernel
